@@ -342,6 +342,30 @@ func (w *world) uinVariants(s *uSpec) []variant {
 			a := accOut(tx)
 			a.Commit = addH(a.Commit, big.NewInt(1))
 		}}))
+		// the public amount grows by 2^64 units while its commitment stays that of the low 64 bits (the honest
+		// one): only a verifier that refuses amounts of 2^64 units and more, instead of truncating them when it
+		// recomputes the commitment, sees the difference
+		vs = append(vs, mk("aout-2^64-units-commit-of-low-64-bits", nil, &signOpts{pre: func(tx *types.UTXOTransaction) {
+			a := accOut(tx)
+			a.Amount = new(big.Int).Add(a.Amount, new(big.Int).Mul(two64, unit))
+		}}))
+		// the same with the fee at its cap (fee = inputs - outputs: the whole spend goes to the account minus
+		// the maximal fee), so that no fee rule hides the verdict of the commitment check; with its control
+		tot := new(big.Int)
+		for _, src := range s.sources {
+			tot.Add(tot, src.Amount)
+		}
+		capFee := new(big.Int).Mul(big.NewInt(types.MaxGasLimit), price)
+		if amt := new(big.Int).Sub(tot, capFee); amt.Cmp(unit) > 0 {
+			amt.Sub(amt, new(big.Int).Mod(amt, unit))
+			one := copyDests(s.dests[ia : ia+1])
+			one[0].(*types.AccountDestEntry).Amount = amt
+			vs = append(vs, variant{class: "control-whole-spend-to-account-at-capped-fee/" + rc, control: true, build: func() (*types.UTXOTransaction, error) { return w.buildUin(s, one, &signOpts{}) }})
+			vs = append(vs, mk("aout-2^64-units-commit-of-low-64-bits-at-capped-fee", one, &signOpts{pre: func(tx *types.UTXOTransaction) {
+				a := accOut(tx)
+				a.Amount = new(big.Int).Add(a.Amount, new(big.Int).Mul(two64, unit))
+			}}))
+		}
 		vs = append(vs, mk("aout-2^64-units", nil, &signOpts{pre: func(tx *types.UTXOTransaction) {
 			a := accOut(tx)
 			a.Amount = new(big.Int).Add(a.Amount, new(big.Int).Mul(two64, unit))
